@@ -17,8 +17,28 @@ _PROP = None
 def _impl_one(case):
     try:
         return _PROP.impl(case)
-    except Exception as e:  # a harness bug, not an impl outcome: impl() maps expected errors itself
+    except Exception as e:
+        # impl() maps the exceptions a property expects itself. Anything else that was raised *inside the
+        # repository's code* (e.g. while the harness was only observing the state) is an outcome of the real code,
+        # reported as a failure of the property on this case; an exception raised in the harness is a machinery bug.
+        import os as _os
+
+        from .common import REPO
+
+        tb = e.__traceback__
+        in_repo = False
+        while tb is not None:
+            fn = _os.path.realpath(tb.tb_frame.f_code.co_filename)
+            if fn.startswith(_os.path.realpath(REPO) + _os.sep):
+                in_repo = True
+            tb = tb.tb_next
+        if in_repo:
+            return {"__impl_exception__": type(e).__name__, "message": str(e)[:300], "trace": traceback.format_exc()[-1200:]}
         return ["harness-exception", type(e).__name__, str(e)[:300], traceback.format_exc()[-1500:]]
+
+
+def _is_impl_exc(o):
+    return isinstance(o, dict) and "__impl_exception__" in o
 
 
 def pmap(cases, workers):
@@ -33,7 +53,9 @@ def pmap(cases, workers):
 def run_model(prop, cases, impl_outs=None):
     reqs, spans = [], []
     for i, c in enumerate(cases):
-        if getattr(prop, "MODEL_NEEDS_IMPL", False):
+        if impl_outs is not None and _is_impl_exc(impl_outs[i]):
+            ls = []
+        elif getattr(prop, "MODEL_NEEDS_IMPL", False):
             ls = prop.model_lines(c, impl_outs[i] if impl_outs is not None else prop.impl(c))
         else:
             ls = prop.model_lines(c)
@@ -42,7 +64,9 @@ def run_model(prop, cases, impl_outs=None):
     ans = run_driver(reqs)
     outs = []
     for i, (c, (a, n)) in enumerate(zip(cases, spans)):
-        if getattr(prop, "MODEL_NEEDS_IMPL", False):
+        if impl_outs is not None and _is_impl_exc(impl_outs[i]):
+            outs.append(None)
+        elif getattr(prop, "MODEL_NEEDS_IMPL", False):
             outs.append(prop.model_out(c, ans[a : a + n], impl_outs[i] if impl_outs is not None else prop.impl(c)))
         else:
             outs.append(prop.model_out(c, ans[a : a + n]))
@@ -204,6 +228,9 @@ def main(argv):
     for s, c, io, mo in zip(streams, cases, impl_outs, model_outs):
         sname = s.split(":")[0]
         stream_hist[sname] = stream_hist.get(sname, 0) + 1
+        if _is_impl_exc(io):
+            failures.append((s, c, io, f"the real code raised {io['__impl_exception__']}: {io['message']}"))
+            continue
         if not prop.NO_MODEL and not prop.same(c, io, mo):
             disagreements.append((s, c, io, mo))
         why = prop.oracle(c, io)
@@ -234,22 +261,25 @@ def main(argv):
     violations = []
 
     def fails_oracle(cand):
-        o = prop.impl(cand)
+        o = _impl_one(cand)
         if isinstance(o, list) and o and o[0] == "harness-exception":
             return False
+        if _is_impl_exc(o):
+            return True
         w = prop.oracle(cand, o)
         return bool(w) and not (prop.scope(cand, o) in open_keys)
 
     if new_failures:
         s, c, io, why = new_failures[0]
         small = shrink(prop, c, fails_oracle)
-        so = prop.impl(small)
+        so = _impl_one(small)
         path = write_replay(
             pid,
             "violation",
             {
                 "property": pid,
-                "what": prop.oracle(small, so) or why,
+                "what": (f"the real code raised {so['__impl_exception__']}: {so['message']}" if _is_impl_exc(so)
+                         else prop.oracle(small, so)) or why,
                 "case": small,
                 "impl_out": so,
                 "original_case": c,
@@ -266,8 +296,10 @@ def main(argv):
         s, c, io, mo = disagreements[0]
 
         def differs(cand):
-            o = prop.impl(cand)
+            o = _impl_one(cand)
             if isinstance(o, list) and o and o[0] == "harness-exception":
+                return False
+            if _is_impl_exc(o):
                 return False
             m = run_model(prop, [cand], [o])[0]
             return not prop.same(cand, o, m)
